@@ -280,7 +280,10 @@ def alias_fns(units, ref, notes):
             r = ref["bodies"][m]
             ms = json.dumps(r["sig"])
             mf = set(r["feats"])
-            cands = [(k, _jacc(mf, ufe[k][1])) for k in unknown if ufe[k][0] == ms]
+            # same enclosing module / impl counts for a little: it separates siblings with identical bodies
+            # (`sources::run` / `targets::run` renamed alike)
+            par = m.rsplit("::", 1)[0]
+            cands = [(k, _jacc(mf, ufe[k][1]) + (0.2 if akey(k).rsplit("::", 1)[0] == par else 0.0)) for k in unknown if ufe[k][0] == ms]
             for k, s in cands:
                 pairs.append((s, m, k, len(cands)))
         pairs.sort(key=lambda x: -x[0])
@@ -299,7 +302,7 @@ def alias_fns(units, ref, notes):
                 used_m.add(m)
                 used_k.add(k)
                 progress = True
-                notes.append("function %s is taken for the reference function %s (same signature, body similarity %.2f)" % (k, m, s))
+                notes.append("function %s is taken for the reference function %s (same signature, body similarity %.2f%s)" % (k, m, min(s, 1.0) if s <= 1.0 else s - 0.2, ", same parent" if s > 1.0 or akey(k).rsplit("::", 1)[0] == m.rsplit("::", 1)[0] else ""))
         if not progress and rnd >= 1:
             break
     return fmap
